@@ -557,10 +557,33 @@ func runC13(c *Ctx) {
 		lst := p.callGuard("Lstat err==nil", []string{"os.Lstat"}, 1, IsNil, nil)
 		stt := p.callGuard("Stat err==nil", []string{"(*os.File).Stat"}, 1, IsNil, nil)
 		n := 0
+		var inPlace []ssa.CallInstruction
 		for _, ci := range p.callsIn(ap, "(*os.File).WriteAt", "(*os.File).Write", "(*os.File).Truncate", "(*os.File).WriteString") {
-			if ci.Common().Args[0] != infile {
-				continue
+			if ci.Common().Args[0] == infile {
+				inPlace = append(inPlace, ci)
 			}
+		}
+		// or the call of a step of Apply that was given a name and makes those writes on the same file
+		if site := p.applyInPlaceSite(); site != nil {
+			for _, sk := range site.sinks {
+				dup := false
+				for _, k := range inPlace {
+					if k == sk {
+						dup = true
+					}
+				}
+				passes := false
+				for _, a := range sk.Common().Args {
+					if a == ssa.Value(infile) {
+						passes = true
+					}
+				}
+				if !dup && passes {
+					inPlace = append(inPlace, sk, sk) // stands for the WriteAt loop and the Truncate
+				}
+			}
+		}
+		for _, ci := range inPlace {
 			n++
 			missing, path := p.unguardedFromEntry(ap, ci, can, lst, stt)
 			c.Check(len(missing) == 0, rc, fmt.Sprintf("(*lib/binpatch.PatchSet).Apply in-place %s#%d", p.calleeName(ci.Common()), n), p.Pos(ci.Pos()), "in-place write only when canOverwrite proved it safe", fmt.Sprintf("the input file is modified in place without %v", missing), path...)
@@ -575,7 +598,7 @@ func runC13(c *Ctx) {
 				if b, ok := boolConst(retVal(r, 0)); ok && !b {
 					continue
 				}
-				missing, path := p.unguardedFromEntry(co, r, reg, same, nolinks)
+				missing, path := p.trueReturnMissing(co, r, 0, reg, same, nolinks)
 				c.Check(len(missing) == 0, rc, fmt.Sprintf("lib/binpatch.canOverwrite return#%d", i+1), p.Pos(r.Pos()), "true only for a regular, identical, singly-linked file", fmt.Sprintf("canOverwrite can return true without %v", missing), path...)
 			}
 		} else {
